@@ -105,7 +105,7 @@ def java_tlc_to_file(args, outpath, env=None, timeout=1800, xmx='3g', cwd=None):
 # ----------------------------------------------------------------------------------------------
 MC_DEFAULTS = dict(NA=2, NB=2, Profile='one', MaxLen=4, MaxCnt=2, MaxCap=16, MaxSize=1000,
                    IsStd=False, POCCA=False, POCMA=False, POCS=False, AE=False, SOCCC=0,
-                   Copyable=True, NothrowMove=True, AllocIds=[0], Kinds=[0, 1, 3, 4], Pairs=False)
+                   Copyable=True, NothrowMove=True, AllocIds=[0], Kinds=[0, 1, 3, 4], Pairs=False, PrintFrom=0)
 
 
 def tla_const(v):
@@ -207,9 +207,12 @@ def gen_stimuli_sim(consts, num, depth, seed):
     return _gen_pool.submit(_gen_stimuli_sim_impl, consts, num, depth, seed).result()
 
 
-def _gen_stimuli_sim_impl(consts, num, depth, seed):
+def _gen_stimuli_sim_impl(consts, num, depth, seed, print_from=None):
     c = dict(MC_DEFAULTS)
     c.update(consts)
+    # TLC evaluates (and would print) every enabled call at every step; only the calls enabled at the END of a behaviour become
+    # stimuli, so printing starts two steps before the end (100 times less output to write and parse)
+    c['PrintFrom'] = max(0, depth - 3) if print_from is None else print_from
     cfgtext = mc_cfg_text(c)
     key = sha('sim', spec_sha(), cfgtext, num, depth, seed)
     d = os.path.join(CACHE, 'stim', key)
@@ -241,6 +244,8 @@ def _gen_stimuli_sim_impl(consts, num, depth, seed):
             byhist.setdefault(' ; '.join(fmt_op(o) for o in v[1]), []).append(fmt_op(v[2]))
         fin.close()
         os.remove(outp)
+        if not byhist and c['PrintFrom'] > 0:
+            return _gen_stimuli_sim_impl(consts, num, depth, seed, print_from=0)      # behaviours ended early: print everything
         rnd = __import__('random').Random(seed)
         bodies = []
         for h in sorted(byhist):
